@@ -38,7 +38,7 @@ class Parser:
     ]
 
     def is_formula(self, value):
-        return self.formula_check.match(value) or Error._re.match(value)
+        return self.formula_check.match(value) or Error._re.fullmatch(value)
 
     def ast(self, expression, context=None):
         try:
